@@ -466,7 +466,7 @@ Section JoinRight.
     set (R := mktable out _) in *.
     assert (width_ok R) as WR.
     { unfold width_ok, R. cbn [rows cols]. apply Forall_forall. intros row I. unfold out. rewrite app_length, map_length.
-      rewrite !in_app_iff in I. destruct I as [I|[I|I]]; [| |destruct I].
+      rewrite !in_app_iff in I. destruct I as [I|I].
       - apply in_flat_map in I. destruct I as [rb [Ib I]]. apply in_flat_map in I. destruct I as [ra [Ia I]].
         destruct (keys_match _ _ _); [|destruct I]. destruct I as [<-|[]]. rewrite app_length, map_length. f_equal. apply width_row; assumption.
       - apply in_flat_map in I. destruct I as [rb [Ib I]]. destruct (existsb _ _); [destruct I|]. destruct I as [<-|[]].
@@ -474,7 +474,7 @@ Section JoinRight.
     rewrite (rows_select_with_columns declared R xs cell WR).
     2:{ intros i row c N Ic. apply jr_cell_wc; [reflexivity|exact N|]. apply (width_row R row WR). eapply nth_error_In; eassumption. }
     unfold sem_join. fold ca cb. change (ca ++ filter (fun c => negb (mem c ca)) cb) with declared. cbn [rows].
-    unfold R. cbn [rows]. rewrite !map_app. cbn [app map]. rewrite app_nil_r.
+    unfold R. cbn [rows]. rewrite !map_app. cbn [app map].
     set (mk := fun (ra rb : option (list val)) =>
                  map (fun c => let va := match ra with Some r => if mem c ca then get ca r c else VNull | None => VNull end in
                                let vb := match rb with Some r => if mem c cb then get cb r c else VNull | None => VNull end in
@@ -552,7 +552,7 @@ Proof.
     { destruct (pl_join HInner on on "_da_right_tmp" a b); exact H. }
     pose proof H' as H''. apply rbind_ok in H''. destruct H'' as [r [Ej _]].
     destruct (pl_join_checks _ _ _ _ _ _ _ Ej) as [N [A B]].
-    rewrite (join_left_body HInner on a b Ga Gb N A B t2 H'). split; [reflexivity|apply Permutation_refl].
+    rewrite (join_left_body HInner on a b Ga Gb N A t2 H'). split; [reflexivity|apply Permutation_refl].
   - (* left *)
     assert (rbind (pl_join HLeft on on "_da_right_tmp" a b)
               (fun r => pl_select (cols a ++ filter (fun c => negb (mem c (cols a))) (cols b))
@@ -561,7 +561,7 @@ Proof.
     { destruct (pl_join HLeft on on "_da_right_tmp" a b); exact H. }
     pose proof H' as H''. apply rbind_ok in H''. destruct H'' as [r [Ej _]].
     destruct (pl_join_checks _ _ _ _ _ _ _ Ej) as [N [A B]].
-    rewrite (join_left_body HLeft on a b Ga Gb N A B t2 H'). split; [reflexivity|apply Permutation_refl].
+    rewrite (join_left_body HLeft on a b Ga Gb N A t2 H'). split; [reflexivity|apply Permutation_refl].
   - (* right *)
     assert (rbind (pl_join HLeft on on "_da_left_tmp" b a)
               (fun r => pl_select (cols a ++ filter (fun c => negb (mem c (cols a))) (cols b))
